@@ -9,7 +9,7 @@ from ..core import Part, Violation, guard
 
 core.use_repo()
 
-RULE = ("Hypothesis-generated training lists through the real trainer; the real guesser is run over the whole ruleset (default flags, "
+RULE = ("Hypothesis-generated training lists through the real trainer (one case in four then has base structures removed from grammar.txt without renormalising, as edit_rules.py leaves a ruleset); the real guesser is run over the whole ruleset (default flags, "
         "Markov pre-terminals not expanded) to build the language map string -> {pre-terminal probabilities}; the real scorer "
         "(constructed as password_scorer.py does) scores candidates: all training passwords, a sample of guesser output, case / "
         "digit / symbol perturbations of both, generated unrelated strings, e-mail and website strings. Oracle: score p > 0 => the "
@@ -75,6 +75,20 @@ def prop(case, rec):
             raise Violation('crash:' + type(r.error).__name__, f'run_trainer raised {r.error!r}', case)
         rec.skip('trainer_did_not_complete')
         return
+    if case.get('drop_structs'):
+        # base structures removed from Grammar/grammar.txt without renormalising - what edit_rules.py leaves behind; the
+        # scorer and the guesser read the same narrowed list
+        gpath = os.path.join(out, 'Grammar', 'grammar.txt')
+        with open(gpath, 'rb') as f:
+            glines = f.read().splitlines(keepends=True)
+        drop = {i % len(glines) for i in case['drop_structs']} if glines else set()
+        kept = [l for i, l in enumerate(glines) if i not in drop]
+        if not kept or len(kept) == len(glines):
+            rec.skip('nothing_left_after_edit')
+            return
+        with open(gpath, 'wb') as f:
+            f.write(b''.join(kept))
+        rec.cls('edited_ruleset')
     g = guard(case, guesser.load, out)
     q = guesser.new_queue(g)
     lang = {}
@@ -162,8 +176,9 @@ def cases(draw):
     base = [['password1', 6], ['Monkey12', 5], ['iloveyou', 5], ['love2019!', 2], ['lovemonkey', 1], ['1qaz2wsx', 2]]
     entries += [e for e in base if e[0] not in seen]
     extra = [draw(pwgen.password(max_frags=2)) for _ in range(draw(st.integers(0, 6)))]
+    drop = draw(st.lists(st.integers(0, 11), min_size=1, max_size=3)) if draw(st.integers(0, 3)) == 0 else []
     return {'entries': entries, 'encoding': enc, 'coverage': draw(st.sampled_from([0.6, 0.3, 1])), 'ngram': draw(st.sampled_from([2, 3, 4])),
-            'extra': [e for e in extra if valid_password(e)]}
+            'extra': [e for e in extra if valid_password(e)], 'drop_structs': drop}
 
 
 def run_main(rec, seed, shard, nshards, tier):
